@@ -1,11 +1,30 @@
 package main
 
 import (
+	"bytes"
 	"go/ast"
+	"go/printer"
 	"go/token"
 	"strconv"
 	"strings"
 )
+
+// c16ExprSrc prints an expression as source text (one line)
+func c16ExprSrc(e ast.Node) string {
+	var b bytes.Buffer
+	_ = printer.Fprint(&b, token.NewFileSet(), e)
+	return strings.Join(strings.Fields(b.String()), " ")
+}
+
+func c16Src(fd *ast.FuncDecl) string { return c16ExprSrc(fd) }
+
+func c16Exprs(es []ast.Expr) string {
+	var l []string
+	for _, e := range es {
+		l = append(l, c16ExprSrc(e))
+	}
+	return strings.Join(l, ", ")
+}
 
 func init() { extractors["C16"] = extractC16 }
 
@@ -311,6 +330,225 @@ func extractC16() *lean {
 			return true
 		})
 	}
+	// ---- edges of the mechanism (coverage audit): sibling functions, wiring, comparison helpers, loop shapes
+	// every writer of the service record reads it under the row lock
+	lockFn := funcDecl(store, "findAndLockService")
+	locked := []string{}
+	if lockFn != nil {
+		src := c16Src(lockFn)
+		if strings.Contains(src, "clause.Locking") {
+			locked = append(locked, "clause.Locking")
+		}
+		for _, lit := range c16Strings(lockFn) {
+			if strings.Contains(lit, "UPDLOCK") {
+				locked = append(locked, "UPDLOCK")
+			}
+		}
+	}
+	for _, fn := range []string{"incrementTimestamp", "setTimestamp", wipeFn} {
+		if c16CallPos(funcDecl(store, fn), "findAndLockService") >= 0 {
+			locked = append(locked, fn)
+		}
+	}
+	l.def("lockedServiceWriters", "List String", leanStrList(locked), locked)
+	// loops that must visit every element: jump statements inside them
+	jumps := []string{}
+	for _, fj := range []struct {
+		file *ast.File
+		fn   string
+	}{{module, "validateRegistration"}, {module, "validateAudience"}, {client, "update"}, {client, "validate"}, {client, "removeRevoked"}} {
+		fd := funcDecl(fj.file, fj.fn)
+		if fd == nil {
+			jumps = append(jumps, fj.fn+":MISSING")
+			continue
+		}
+		ast.Inspect(fd.Body, func(n ast.Node) bool {
+			if r, ok := n.(*ast.RangeStmt); ok {
+				ast.Inspect(r.Body, func(m ast.Node) bool {
+					switch x := m.(type) {
+					case *ast.BranchStmt:
+						jumps = append(jumps, fj.fn+":"+x.Tok.String())
+					case *ast.ReturnStmt:
+						jumps = append(jumps, fj.fn+":return "+c16Exprs(x.Results))
+					}
+					return true
+				})
+				return false
+			}
+			return true
+		})
+	}
+	l.def("loopJumps", "List String", leanStrList(jumps), jumps)
+	// comparisons
+	cmps := []string{}
+	if fd := funcDecl(module, "validateAudience"); fd != nil {
+		ast.Inspect(fd.Body, func(n ast.Node) bool {
+			if i, ok := n.(*ast.IfStmt); ok {
+				cmps = append(cmps, "aud: "+exprString(i.Cond))
+			}
+			return true
+		})
+	}
+	if fd := funcDecl(module, "verifyRegistration"); fd != nil {
+		ast.Inspect(fd.Body, func(n ast.Node) bool {
+			if i, ok := n.(*ast.IfStmt); ok && strings.Contains(c16ExprSrc(i.Cond), "DIDMethods") {
+				cmps = append(cmps, "method: "+c16ExprSrc(i.Cond))
+			}
+			return true
+		})
+	}
+	if fd := funcDecl(module, "validateRegistration"); fd != nil {
+		ast.Inspect(fd.Body, func(n ast.Node) bool {
+			if i, ok := n.(*ast.IfStmt); ok {
+				cmps = append(cmps, "registration: "+c16ExprSrc(i.Cond))
+			}
+			return true
+		})
+	}
+	l.def("comparisons", "List String", leanStrList(cmps), cmps)
+	// the key of sqlStore.exists
+	keyFields := []string{}
+	if fd := funcDecl(store, "exists"); fd != nil {
+		ast.Inspect(fd.Body, func(n ast.Node) bool {
+			if c, ok := n.(*ast.CompositeLit); ok && exprString(c.Type) == "presentationRecord" && len(c.Elts) > 0 {
+				for _, e := range c.Elts {
+					if kv, ok := e.(*ast.KeyValueExpr); ok {
+						keyFields = append(keyFields, exprString(kv.Key)+"="+c16ExprSrc(kv.Value))
+					}
+				}
+			}
+			return true
+		})
+	}
+	l.def("existsKey", "List String", leanStrList(keyFields), keyFields)
+	existsCalls := []string{}
+	for _, fj := range []struct {
+		file *ast.File
+		fn   string
+	}{{module, "Register"}, {module, "validateRetraction"}, {client, "updateService"}} {
+		if fd := funcDecl(fj.file, fj.fn); fd != nil {
+			ast.Inspect(fd.Body, func(n ast.Node) bool {
+				if c, ok := n.(*ast.CallExpr); ok && strings.HasSuffix(exprString(c.Fun), "store.exists") {
+					existsCalls = append(existsCalls, fj.fn+"("+c16Exprs(c.Args)+")")
+				}
+				return true
+			})
+		}
+	}
+	l.def("existsCalls", "List String", leanStrList(existsCalls), existsCalls)
+	// background validation keeps exactly the records that verified; removeRevoked deletes only on ErrRevoked
+	bg := []string{}
+	if fd := funcDecl(client, "validate"); fd != nil {
+		ast.Inspect(fd.Body, func(n ast.Node) bool {
+			switch x := n.(type) {
+			case *ast.AssignStmt:
+				if len(x.Lhs) == 1 && strings.HasPrefix(c16ExprSrc(x.Lhs[0]), "presentations[") {
+					bg = append(bg, c16ExprSrc(x.Lhs[0])+" = "+c16ExprSrc(x.Rhs[0]))
+				}
+			case *ast.CallExpr:
+				if strings.HasSuffix(exprString(x.Fun), "updateValidated") {
+					bg = append(bg, "updateValidated("+c16Exprs(x.Args)+")")
+				}
+			}
+			return true
+		})
+	}
+	if fd := funcDecl(client, "removeRevoked"); fd != nil {
+		var walk func(n ast.Node, guard string)
+		walk = func(n ast.Node, guard string) {
+			ast.Inspect(n, func(m ast.Node) bool {
+				if m == n {
+					return true
+				}
+				switch x := m.(type) {
+				case *ast.IfStmt:
+					if x.Init != nil {
+						walk(&ast.BlockStmt{List: []ast.Stmt{x.Init}}, guard)
+					}
+					walk(x.Body, c16ExprSrc(x.Cond))
+					if x.Else != nil {
+						walk(x.Else, "else of "+c16ExprSrc(x.Cond))
+					}
+					return false
+				case *ast.CallExpr:
+					if strings.HasSuffix(exprString(x.Fun), "deletePresentationRecord") {
+						bg = append(bg, "delete if "+guard)
+					}
+				}
+				return true
+			})
+		}
+		walk(fd.Body, "always")
+	}
+	l.def("backgroundJobs", "List String", leanStrList(bg), bg)
+	// wiring in Module.Start / Search and the transport
+	wiring := []string{}
+	if fd := funcDecl(module, "Start"); fd != nil {
+		ast.Inspect(fd.Body, func(n ast.Node) bool {
+			if c, ok := n.(*ast.CallExpr); ok {
+				switch exprString(c.Fun) {
+				case "newSQLStore", "newClientUpdater", "newRegistrationManager":
+					wiring = append(wiring, exprString(c.Fun)+"("+c16Exprs(c.Args)+")")
+				}
+			}
+			return true
+		})
+	}
+	if fd := funcDecl(module, "Search"); fd != nil {
+		ast.Inspect(fd.Body, func(n ast.Node) bool {
+			if c, ok := n.(*ast.CallExpr); ok && strings.HasSuffix(exprString(c.Fun), "store.search") {
+				wiring = append(wiring, "Search: store.search("+c16Exprs(c.Args)+")")
+			}
+			return true
+		})
+	}
+	if fd := funcDecl(module, "Get"); fd != nil {
+		ast.Inspect(fd.Body, func(n ast.Node) bool {
+			if c, ok := n.(*ast.CallExpr); ok && strings.HasSuffix(exprString(c.Fun), "store.get") {
+				wiring = append(wiring, "Get: store.get("+c16Exprs(c.Args)+")")
+			}
+			return true
+		})
+	}
+	_, api := parseFile("discovery/api/server/api.go")
+	if fd := funcDecl(api, "GetPresentations"); fd != nil {
+		ast.Inspect(fd.Body, func(n ast.Node) bool {
+			switch x := n.(type) {
+			case *ast.CallExpr:
+				if strings.HasSuffix(exprString(x.Fun), "Server.Get") {
+					wiring = append(wiring, "api: Server.Get("+c16Exprs(x.Args)+")")
+				}
+			case *ast.CompositeLit:
+				if exprString(x.Type) == "GetPresentations200JSONResponse" {
+					wiring = append(wiring, "api: response{"+c16Exprs(x.Elts)+"}")
+				}
+			}
+			return true
+		})
+	}
+	if fd := funcDecl(api, "RegisterPresentation"); fd != nil {
+		ast.Inspect(fd.Body, func(n ast.Node) bool {
+			if c, ok := n.(*ast.CallExpr); ok && strings.HasSuffix(exprString(c.Fun), "Server.Register") {
+				wiring = append(wiring, "api: Server.Register("+c16Exprs(c.Args)+")")
+			}
+			return true
+		})
+	}
+	_, httpc := parseFile("discovery/api/server/client/http.go")
+	if fd := funcDecl(httpc, "Get"); fd != nil {
+		for _, lit := range c16Strings(fd) {
+			if lit == "timestamp" {
+				wiring = append(wiring, "http: query timestamp")
+			}
+		}
+		if n := len(fd.Body.List); n > 0 {
+			if r, ok := fd.Body.List[n-1].(*ast.ReturnStmt); ok {
+				wiring = append(wiring, "http: return "+c16Exprs(r.Results))
+			}
+		}
+	}
+	l.def("wiring", "List String", leanStrList(wiring), wiring)
+
 	l.def("restartAfterWipe", "Bool", c16Bool(restart), restart)
 	l.def("updateServiceCalls", "List String", leanStrList(updCalls), updCalls)
 	l.def("updateSkipsExisting", "Bool", c16Bool(skipExisting), skipExisting)
